@@ -55,7 +55,8 @@ fi
 
 TIER="$MODE"; GUARD="$4"; SEED="$5"; PART="$6"; REPO="$7"
 T0=$(date +%s.%N)
-mkdir -p "$VERIF/replays" "$VERIF/.build/parts"
+RPD="${RPDIR:-$VERIF/replays}"
+mkdir -p "$RPD" "$VERIF/.build/parts"
 build_threads || exit 2          # also proves that indextree itself compiles (else: harness error, not a verdict)
 
 emit_part() { # emit_part <violations> <miri_plain_runs> <miri_rayon_runs> <guard_ok>
@@ -80,7 +81,7 @@ EOF
 # ---- 1. build guard (type-level clause): compilation, not simulation
 GLOG="$VERIF/.build/parts/guard.log"
 if ! cargo build --offline -q --release --manifest-path "$GUARD" --target-dir "$TDIR-guard" >"$GLOG" 2>&1; then
-  RP="$VERIF/replays/C18-guard.json"
+  RP="$RPD/C18-guard.json"
   python3 - "$GLOG" "$RP" <<'EOF'
 import json, sys
 json.dump({"engine": "threadsim-guard", "property": "C18", "detail": open(sys.argv[1]).read()[-4000:]}, open(sys.argv[2], "w"), indent=1)
@@ -92,7 +93,7 @@ fi
 if ! cargo rustc --offline -q --release --manifest-path "$REPO/indextree/Cargo.toml" --lib --features deser,par_iter \
       --target-dir "$TDIR-forbid" -- -F unsafe_code >"$GLOG" 2>&1; then
   if grep -q "unsafe" "$GLOG"; then
-    RP="$VERIF/replays/C18-guard.json"
+    RP="$RPD/C18-guard.json"
     python3 - "$GLOG" "$RP" <<'EOF'
 import json, sys
 json.dump({"engine": "threadsim-guard", "property": "C18", "detail": open(sys.argv[1]).read()[-4000:]}, open(sys.argv[2], "w"), indent=1)
@@ -106,7 +107,7 @@ fi
 
 # ---- 2. shuttle schedules
 if [ "$TIER" = thorough ]; then SCEN=2500; ITERS=100; else SCEN=100; ITERS=40; fi
-"$TDIR/release/shuttle_sim" run --seed "$SEED" --scenarios "$SCEN" --iters "$ITERS" --replay-dir "$VERIF/replays" --part "$VERIF/.build/parts/C18-shuttle.json"
+"$TDIR/release/shuttle_sim" run --seed "$SEED" --scenarios "$SCEN" --iters "$ITERS" --replay-dir "$RPD" --part "$VERIF/.build/parts/C18-shuttle.json"
 RC=$?
 if [ "$RC" != 0 ]; then emit_part $([ "$RC" = 1 ] && echo 1 || echo 0) 0 0 1; exit "$RC"; fi
 
@@ -118,7 +119,7 @@ for i in $(seq 1 $NP); do
   S=$(( SEED * 1000 + i ))
   LOG="$VERIF/.build/parts/miri-plain-$i.log"
   if ! miri_run "$S" plain "$RANGE" "$LOG"; then
-    RP="$VERIF/replays/C18-miri-plain-$S.json"
+    RP="$RPD/C18-miri-plain-$S.json"
     python3 - "$LOG" "$RP" "$S" plain "$RANGE" <<'EOF'
 import json, sys
 json.dump({"engine": "threadsim-miri", "property": "C18", "scenario_seed": int(sys.argv[3]), "mode": sys.argv[4], "miri_seeds": sys.argv[5], "detail": open(sys.argv[1]).read()[-6000:]}, open(sys.argv[2], "w"), indent=1)
@@ -131,7 +132,7 @@ for i in $(seq 1 $NR); do
   S=$(( SEED * 1000 + 500 + i ))
   LOG="$VERIF/.build/parts/miri-rayon-$i.log"
   if ! miri_run "$S" rayon "$RANGE" "$LOG"; then
-    RP="$VERIF/replays/C18-miri-rayon-$S.json"
+    RP="$RPD/C18-miri-rayon-$S.json"
     python3 - "$LOG" "$RP" "$S" rayon "$RANGE" <<'EOF'
 import json, sys
 json.dump({"engine": "threadsim-miri", "property": "C18", "scenario_seed": int(sys.argv[3]), "mode": sys.argv[4], "miri_seeds": sys.argv[5], "detail": open(sys.argv[1]).read()[-6000:]}, open(sys.argv[2], "w"), indent=1)
